@@ -53,6 +53,17 @@ def forceSpace (lang : Nat) (dig permit : Bool) (a : List CP) (aAC : Bool) (b : 
     else false
   else false
 
+/-- since fix (space.cpp, "would open a comment"): a `/` directly followed by `*` or `/` -/
+def opensCommentPair (a b : List CP) : Bool :=
+  a.getLast? == some 47 && (b.head? == some 42 || b.head? == some 47)
+
+/-- `PCF_FORCE_SPACE` after the safety check of the current code: the comment-opener test comes first, inside the same outer
+    condition as the rest (`forceSpace` is the check as it was before that fix) -/
+def forceSpace2 (lang : Nat) (dig permit : Bool) (a : List CP) (aAC : Bool) (b : List CP) (bAC : Bool) : Bool :=
+  (a.length > 0 && a != [91, 93] && a != [123, 123] && a != [125, 125] && a != [40, 41] && !(a.take 2 == [64, 34])
+     && opensCommentPair a b)
+  || forceSpace lang dig permit a aAC b bAC
+
 /-- the length of the token the specification lexer finds at the head of `s` -/
 def munchLen (l : Nat) (s : List CP) : Option Nat := (munchTok l s).map (·.1)
 
